@@ -7,9 +7,11 @@ LEVEL = "proof"
 
 EXPLANATION = (
     "rh_vector() is shown (abstract interpretation) to be str(scores()[0]) + '/' + clean_vector(); from_rh_vector is "
-    "analysed structurally: split on the first '/' only inside try/except ValueError -> RHMalformed, float() of the "
-    "score part likewise, constructor call on the untransformed remainder outside any handler, exact == between "
-    "scores()[0] and the parsed number, object returned on match, RHScoreDoesNotMatch otherwise. Round trip follows by "
+    "interpreted abstractly (exceptions as control flow) over a representative set of Red Hat strings - score texts "
+    "(the exact score, other spellings of the number, other numbers, nan, texts float() rejects) x vector parts (valid, "
+    "with further '/' inside, malformed, mandatory metric missing, empty) and strings without '/': the constructor is "
+    "replaced by the grammar (C04), scores() of the object by a fixed base score; the outcome read off the value graph "
+    "(returned object / raised class) must be the one the property states for every string. Round trip follows by "
     "composition with C07.reparse, C09.quantised and Python's float repr round-trip guarantee."
 )
 
@@ -18,10 +20,23 @@ def run(ctx):
     led = ctx.ledger
     led.explanation = EXPLANATION
     led.assumptions = ["float(str(x)) == x for Python floats (repr round-trip)", "C07.reparse", "C09.quantised (score prints with one decimal)"]
+    from ..rules_parse import InfoLedger
+    from ..rules_rh_sem import check_rh_semantics
+    from ..srcmodel import AnalysisError
+
+    n_sem = 0
     for v in (2, 3, 4):
         RO.check_rh_emit(ctx, led, v)
-        RR.check_from_rh(ctx, led, v)
+        # from_rh_vector: the semantic analysis over representative Red Hat strings decides; the
+        # idiom rules (one way of writing the function) are then an informational cross-check.
+        # When the function cannot be interpreted the check stops as undecided (exit 2): neither
+        # the silence nor the complaints of the idiom rules decide then.
+        n_sem += check_rh_semantics(ctx, led, v)
+        try:
+            RR.check_from_rh(ctx, InfoLedger(led), v)
+        except AnalysisError as e:
+            led.info("C12.parse", "CVSS%d.from_rh_vector" % v, "cvss/", "idiom rules not applicable: %s" % e.message)
         from ..rules_access import check_accessors
 
         check_accessors(ctx, led, v, rules=("pure",), prefix="C12.pure", only=("rh_vector", "clean_vector", "scores"))
-    led.require_min("C12.parse", sum(1 for o in led.obs if o.rule.startswith("C12.parse")), 30, "from_rh_vector obligations")
+    led.require_min("C12.sem", n_sem, 300, "representative Red Hat strings decided")
